@@ -407,7 +407,7 @@ theorem src_exposure_sites :
         = ["Matcher::Prefix(prefix) => key.starts_with(prefix)", "Matcher::Suffix(suffix) => key.ends_with(suffix)",
            "Matcher::Full(full) => key == full"]
     ∧ Generated.c15_rolling_add_truncate = "self.buckets.truncate(self.max_buckets - 1);"
-    ∧ Generated.c15_rolling_new_vec = "Vec::with_capacity(max_buckets)"
+    ∧ Generated.c15_rolling_new_vec = "Vec::new()"
     ∧ Generated.c15_render_hist_arm_loop = "for (le, count) in histogram.buckets()"
     ∧ Generated.c15_render_quantile_value = "snapshot.quantile(quantile.value()).unwrap_or(0.0)" := by decide
 
